@@ -119,9 +119,153 @@ def spell_tree(t, rnd, need):
     return w
 
 
-GENERATORS = {'C01': gen_C01}
+GENERATORS = {}
+GENERATORS['C01'] = gen_C01
 
 
 def generate(pid, tier, seed):
     rnd = random.Random(seed * 1000003 + int(pid[1:]))
     return GENERATORS[pid](tier, rnd)
+
+
+# ------------------------------------------------------------------ random trees (canonical S-expression syntax)
+
+STR_POOL = ['a', 'foo', 'x*', 'a b', 'A', 'é', 'out', 'out2', 'f?', '[ab]', 'p"q', 'b\\s', 't~d', "q'r", '']
+FIELDS0 = ['Percent', 'Access', 'DiskSizeBlocks', 'Change', 'Depth', 'DeviceNumber', 'Basename', 'FsType', 'Group',
+           'GroupId', 'Parents', 'StartingPoint', 'InodeDecimal', 'DiskSizeKilos', 'SymbolicTarget', 'PermissionsOctal',
+           'PermissionsSymbolic', 'Hardlinks', 'Name', 'NameWithoutStartingPoint', 'DiskSizeBytes', 'Sparseness', 'Modify',
+           'User', 'UserId', 'Type', 'TypeSymlink', 'SecurityContext', 'FileId', 'ProjectId', 'MirrorCount', 'StripeCount', 'StripeSize']
+UNSUPPORTED_FIELDS = ['Depth', 'DeviceNumber', 'FsType', 'SymbolicTarget', 'PermissionsSymbolic', 'TypeSymlink', 'SecurityContext']
+SPECIALS0 = ['Alarm', 'Backspace', 'Clear', 'Form', 'Newline', 'CarriageReturn', 'TabHorizontal', 'TabVertical', 'Null', 'Backslash']
+FILETYPES = ['Block', 'Character', 'Directory', 'Pipe', 'File', 'Link', 'Socket']
+SIZES = ['Byte', 'Word', 'Block', 'KiloByte', 'MegaByte', 'GigaByte', 'TeraByte']
+TIMES = ['Second', 'Minute', 'Hour', 'Day']
+NUMS32 = [0, 1, 5, 1000, 2**31 - 1, 2**31, 2**32 - 1]
+NUMS64 = NUMS32 + [2**32, 2**63, 2**64 - 1]
+
+
+def sx_str(s):
+    return hx(s)
+
+
+def rand_cmp(rnd, inner):
+    return '(%s %s)' % (rnd.choice(['GT', 'LT', 'EQ']), inner)
+
+
+def rand_format(rnd, supported_only=False, allow_clear=True):
+    n = rnd.choice([0, 1, 1, 2, 3, 4, 6])
+    els = []
+    for _ in range(n):
+        k = rnd.random()
+        if k < 0.3:
+            els.append('(Lit %s)' % sx_str(rnd.choice(STR_POOL + ['%', '~a', 'x\ny'])))
+        elif k < 0.7:
+            f = rnd.choice(FIELDS0 + ['AF', 'CF', 'MF', 'XA'])
+            if supported_only and f in UNSUPPORTED_FIELDS:
+                f = 'Name'
+            if f in ('AF', 'CF', 'MF'):
+                c = rnd.choice(['@', 'k', 'Y', '"', '\\', '~', 'é'])
+                els.append('(Fld (%s c%d))' % ({'AF': 'AccessFormatted', 'CF': 'ChangeFormatted', 'MF': 'ModifyFormatted'}[f], ord(c)))
+            elif f == 'XA':
+                els.append('(Fld (XAttr %s))' % sx_str(rnd.choice(['user', 'a', 'p"q'])))
+            else:
+                els.append('(Fld %s)' % f)
+        else:
+            s = rnd.choice(SPECIALS0 + ['Ascii', 'Newline', 'Newline'])
+            if s == 'Clear' and (supported_only or not allow_clear):
+                s = 'Newline'
+            if s == 'Ascii':
+                els.append('(Spc (Ascii %d))' % rnd.choice([0, 10, 34, 65, 92, 126, 127, 255, 511]))
+            else:
+                els.append('(Spc %s)' % s)
+    if els and rnd.random() < 0.5:
+        els.append('(Spc Newline)')
+    return '(# %s)' % ' '.join(els) if els else '(#)'
+
+
+SUPPORTED_TESTS = ['AccessTime', 'ChangeTime', 'ModifyTime', 'Empty', 'Executable', 'False', 'GroupId', 'InodeNumber',
+                   'InsensitiveName', 'InsensitivePath', 'Links', 'MirrorCount', 'Name', 'Path', 'Perm', 'Pool', 'Readable',
+                   'Size', 'StripeCount', 'True', 'Type', 'UserId', 'Writable', 'Xattr', 'XattrMatch']
+UNSUPPORTED_TESTS = ['AccessNewer', 'ChangeNewer', 'FsType', 'Group', 'InsensitiveLinkName', 'InsensitiveRegex', 'LinkName',
+                     'ModifyNewer', 'NoGroup', 'NoUser', 'Regex', 'Samefile', 'User']
+SUPPORTED_ACTIONS = ['FilePrint', 'FilePrintNull', 'FilePrintFormatted', 'Print', 'PrintNull', 'PrintFormatted', 'PrintFid', 'Quit']
+UNSUPPORTED_ACTIONS = ['FileList', 'List', 'Prune']
+
+
+def rand_test(rnd, name=None, supported_only=False):
+    if name is None:
+        name = rnd.choice(SUPPORTED_TESTS if supported_only else SUPPORTED_TESTS * 3 + UNSUPPORTED_TESTS)
+    if name in ('AccessTime', 'ChangeTime', 'ModifyTime'):
+        return '(%s %s)' % (name, rand_cmp(rnd, '(%s %d)' % (rnd.choice(TIMES), rnd.choice(NUMS64))))
+    if name in ('GroupId', 'InodeNumber', 'MirrorCount', 'StripeCount', 'UserId'):
+        return '(%s %s)' % (name, rand_cmp(rnd, str(rnd.choice(NUMS32))))
+    if name == 'Links':
+        return '(Links %s)' % rand_cmp(rnd, str(rnd.choice(NUMS64)))
+    if name == 'Size':
+        return '(Size %s)' % rand_cmp(rnd, '(%s %d)' % (rnd.choice(SIZES), rnd.choice(NUMS64 + [2**54, 2**44 - 1])))
+    if name == 'Perm':
+        return '(Perm (%s %d))' % (rnd.choice(['AtLeast', 'Any', 'Equal']), rnd.choice([0, 0o777, 0o7777, 0o644, 0o4000, rnd.randint(0, 4095)]))
+    if name == 'Type':
+        return '(Type (# %s))' % ' '.join(rnd.choice(FILETYPES) for _ in range(rnd.choice([1, 1, 2, 3])))
+    if name == 'XattrMatch':
+        return '(XattrMatch %s %s)' % (sx_str(rnd.choice(STR_POOL)), sx_str(rnd.choice(STR_POOL)))
+    if name in ('Empty', 'Executable', 'False', 'Readable', 'True', 'Writable', 'NoGroup', 'NoUser'):
+        return name
+    return '(%s %s)' % (name, sx_str(rnd.choice(STR_POOL)))
+
+
+def rand_action(rnd, name=None, supported_only=False, files=None):
+    files = files or ['out', 'out2', 'o"3']
+    if name is None:
+        name = rnd.choice(SUPPORTED_ACTIONS if supported_only else SUPPORTED_ACTIONS * 3 + UNSUPPORTED_ACTIONS + ['DefaultPrint'])
+    if name in ('FilePrint', 'FilePrintNull', 'FileList'):
+        return '(%s %s)' % (name, sx_str(rnd.choice(files)))
+    if name == 'FilePrintFormatted':
+        return '(FilePrintFormatted %s %s)' % (sx_str(rnd.choice(files)), rand_format(rnd, supported_only))
+    if name == 'PrintFormatted':
+        return '(PrintFormatted %s)' % rand_format(rnd, supported_only)
+    return name
+
+
+def rand_expr(rnd, depth, supported_only=False, parser_shapes_only=False, p_action=0.3, files=None):
+    """Random tree from the public constructors.  parser_shapes_only: no Prec/Global nodes."""
+    if depth <= 0 or rnd.random() < 0.3:
+        k = rnd.random()
+        if k < p_action:
+            return '(A %s)' % rand_action(rnd, supported_only=supported_only, files=files)
+        if not parser_shapes_only and k > 0.95:
+            return rnd.choice(['(G Depth)', '(G (Threads 3))', '(G (MaxDepth 2))', '(G (MinDepth 1))'])
+        if not supported_only and k > 0.92:
+            return '(Pos XDev)'
+        return '(T %s)' % rand_test(rnd, supported_only=supported_only)
+    k = rnd.random()
+    sub = lambda: rand_expr(rnd, depth - 1, supported_only, parser_shapes_only, p_action, files)
+    if k < 0.15:
+        return '(Not %s)' % sub()
+    if k < 0.2 and not parser_shapes_only:
+        return '(Prec %s)' % sub()
+    op = rnd.choice(['And', 'And', 'Or', 'List'])
+    return '(%s %s %s)' % (op, sub(), sub())
+
+
+# ------------------------------------------------------------------ C19
+
+def gen_C19(tier, rnd):
+    n = 10000 if tier == 'quick' else 200000
+    lines = []
+    for _ in range(n):
+        lines.append('T 0 - %s %s' % (hx('/dev/x'), rand_expr(rnd, rnd.randint(0, 12))))
+    units = 0
+    for v in SIZES:
+        for k in [0, 1, 2, 3, 1023, 2**20, 2**24 - 1, 2**24, 2**34, 2**44 - 1, 2**44, 2**54, 2**63 - 1, 2**63, 2**64 - 1] + [rnd.randint(0, 2**64 - 1) for _ in range(20)]:
+            lines.append('U S %s %d' % (v, k)); units += 1
+    for v in TIMES:
+        for k in [0, 1, 7, 2**64 - 1]:
+            lines.append('U T %s %d' % (v, k)); units += 1
+    for v in FILETYPES:
+        lines.append('U F %s' % v); units += 1
+    return lines, {'rule': '%d random trees built from the public constructors (depth<=12, including Precedence/Global/Positional nodes and every test/action/format element) + exhaustive unit-table queries with boundary counts; non-trivial = every request' % n,
+                   'streams': {'anytrees': n, 'unit_queries': units}}
+
+
+GENERATORS['C19'] = gen_C19
